@@ -3,3 +3,5 @@ package pipeline
 // Exported constructors for harnesses in other packages (injected by overlay only).
 
 func VerifNewJoinNode(e EdgeType) *JoinNode { return newJoinNode(e, nil) }
+
+func VerifNewAlertNode(e EdgeType) *AlertNode { return newAlertNode(e) }
